@@ -127,7 +127,7 @@ func TestVerifC05Sockets(t *testing.T) {
 					for i := 0; i < 3*cycles; i++ {
 						w.fx.inject("127.1.0.1", 5060, w.request("OPTIONS", id, fmt.Sprintf("%s-%d", id, i), "a", ""))
 					}
-					got := w.sinks.wait(id, 2*cycles, 2*time.Second)
+					got := w.sinks.wait(id, 2*cycles, 10*time.Second)
 					time.Sleep(10 * time.Millisecond)
 					got = w.sinks.wait(id, 99, 0)
 					w.sinks.forget(id)
@@ -203,7 +203,7 @@ func TestVerifC05Sockets(t *testing.T) {
 				fl.Wait()
 				atomic.AddInt64(&stats.steps, 1)
 				if ok {
-					got := w.sinks.wait(id, nprobe, 2*time.Second)
+					got := w.sinks.wait(id, nprobe, 10*time.Second)
 					atomic.AddInt64(&firstMember, 1)
 					if len(got) != nprobe {
 						run.Violation("requests submitted while a backend was registered were not dispatched", map[string]any{"submitted_after_registration": nprobe, "arrived": len(got), "member": w.members(), "scheme": w.scheme, "situation": "first backend of an empty rotation registered while the proxy loop was busy with other requests"})
